@@ -184,7 +184,7 @@ void *__real_realloc(void *, size_t);
 void  __real_free(void *);
 void  __sanitizer_symbolize_pc(void *pc, const char *fmt, char *out, size_t out_size) __attribute__((weak));
 
-#define ATAB 1024
+#define ATAB 8192
 #define TOMB ((void *) 1)
 struct ablk { void *p; size_t n; void *pc; int epoch; };
 static struct ablk atab[ATAB];
